@@ -53,7 +53,15 @@ Inductive step :=
 | NewSleep            (* some goroutine calls Sleep() *)
 | NewWake             (* some goroutine calls Wake() *)
 | Fire                (* the armed poll timer fires *)
-| Run (tid : nat).    (* thread [tid] performs its next atomic step *)
+| Run (tid : nat)     (* thread [tid] performs its next atomic step *)
+| CallPoll            (* some goroutine calls the public Poll() (the timer's goroutine that was already
+                         running when the timer was stopped, or anyone else) *)
+| Restart (graceful start : bool).
+                      (* the process ends - gracefully (Stop() writes the current state) or not - and a new
+                         Manager over the same data directory loads the state file; with [start] through
+                         Manager.Start (which re-arms the poll timer for a sleeping/polling state), otherwise
+                         through LoadState alone (what agent.Start does).  All goroutines of the old process
+                         are gone; the state file survives. *)
 
 Fixpoint set_nth (n : nat) (x : pc) (l : list pc) : list pc :=
   match l, n with
@@ -63,6 +71,9 @@ Fixpoint set_nth (n : nat) (x : pc) (l : list pc) : list pc :=
   end.
 
 Definition lock_free (s : sys) : bool := match s_lock s with None => true | Some _ => false end.
+
+(** a goroutine of a process that has ended *)
+Definition kill (p : pc) : pc := match p with Done r => Done r | _ => Done RSkipped end.
 
 Definition upd_thread (s : sys) (tid : nat) (p : pc) : sys :=
   mksys (s_state s) (s_persist s) (s_timer s) (s_gen s) (s_lock s) (set_nth tid p (s_threads s)) (s_log s) (s_writes s).
@@ -123,6 +134,14 @@ Section WithGen.
             else None
         | Some (Done _) => None
         end
+    | CallPoll =>
+        Some (mksys (s_state s) (s_persist s) (s_timer s) (s_gen s) (s_lock s) (s_threads s ++ [PollWaitLock]) (s_log s) (s_writes s))
+    | Restart graceful start =>
+        (* the wake generation lives in memory and restarts at 0 in the code; every goroutine
+           that could hold an old value is gone, so keeping the counter is indistinguishable *)
+        let p := if graceful then s_state s else s_persist s in
+        Some (mksys p p (start && negb (mstate_eqb p MAwake)) (s_gen s) None (map kill (s_threads s)) (s_log s)
+                    (if graceful then s_writes s + 1 else s_writes s))
     end.
 
   Fixpoint run (s : sys) (tr : list step) : option sys :=
@@ -160,7 +179,9 @@ Inductive action :=
 | AFinish (j : nat)     (* let the callback of the j-th requester (in start order) return *)
 | AFire                 (* advance virtual time by the poll interval *)
 | AEnter (k : nat)      (* let the k-th poll that passed its first critical section enter OnPoll *)
-| APollEnd (k : nat).   (* let the k-th entered OnPoll callback return (PollDuration elapses) *)
+| APollEnd (k : nat)    (* let the k-th entered OnPoll callback return (PollDuration elapses) *)
+| ACallPoll             (* a goroutine calls Poll() while the lock is free *)
+| ARestart (graceful start : bool).  (* end the process (Stop() or not) and bring up a new Manager (Start() or LoadState()) *)
 
 Fixpoint find_index {A} (p : A -> bool) (l : list A) (i : nat) : option nat :=
   match l with
@@ -247,6 +268,14 @@ Definition act (gc : bool) (r : rstate) (a : action) : option rstate :=
               match exec gc s (Run tid) with Some s1 => Some (settled gc s1 r (r_req r)) | None => None end
           | _ => None
           end
+      | None => None end
+  | ACallPoll =>
+      match exec gc s CallPoll with
+      | Some s1 => Some (settled gc s1 r (r_req r))
+      | None => None end
+  | ARestart g st =>
+      match exec gc s (Restart g st) with
+      | Some s1 => Some (settled gc s1 r (r_req r))
       | None => None end
   end.
 
